@@ -38,6 +38,7 @@ pub fn run(fields: &[&str], cases: &mut impl Write, out: &mut impl Write, _line:
         }
         "CONVM" => run_convm(fields, cases, out),
         "EQV" => run_eqv(fields, out),
+        "LIBR" => run_libr(fields, out),
         _ => writeln!(out, "{id} SKIP unknown-request").unwrap(),
     }));
     if let Err(e) = r {
@@ -1026,4 +1027,78 @@ fn run_convm(fields: &[&str], cases: &mut impl Write, out: &mut impl Write) {
         ));
     }
     writeln!(out, "{id} OK {}", res.join(",")).unwrap();
+}
+
+/// LIBR id net s-formula t-formula : EF / AG / EU of the tool vs backward reachability, the
+/// largest forward-closed subset and constrained backward reachability of the graph library.
+fn run_libr(fields: &[&str], out: &mut impl Write) {
+    use biodivine_lib_param_bn::symbolic_async_graph::reachability::Reachability;
+    let id = fields[1];
+    let bn = match load_network(fields[2]) {
+        Ok(b) => b,
+        Err(e) => {
+            writeln!(out, "{id} SKIP network:{}", clean(&e)).unwrap();
+            return;
+        }
+    };
+    let graph = match get_extended_symbolic_graph(&bn, 0) {
+        Ok(g) => g,
+        Err(e) => {
+            writeln!(out, "{id} SKIP graph:{}", clean(&e)).unwrap();
+            return;
+        }
+    };
+    let s = match model_check_formula_dirty(unhex(fields[3]).as_str(), &graph) {
+        Ok(x) => x,
+        Err(e) => {
+            writeln!(out, "{id} SKIP context:{}", clean(&e)).unwrap();
+            return;
+        }
+    };
+    let t = match model_check_formula_dirty(unhex(fields[4]).as_str(), &graph) {
+        Ok(x) => x,
+        Err(e) => {
+            writeln!(out, "{id} SKIP context:{}", clean(&e)).unwrap();
+            return;
+        }
+    };
+    let mut ctx: HashMap<String, GraphColoredVertices> = HashMap::new();
+    ctx.insert("s".to_string(), s.clone());
+    ctx.insert("t".to_string(), t.clone());
+    let run = |f: &str| model_check_extended_formula_dirty(f, &graph, &ctx);
+    let mut bad: Vec<String> = Vec::new();
+    match run("EF %s%") {
+        Ok(r) => {
+            if r.as_bdd() != graph.reach_backward(&s).as_bdd() {
+                bad.push("EF s differs from reach_backward(s)".into());
+            }
+            if r.as_bdd() != Reachability::reach_bwd(&graph, &s).as_bdd() {
+                bad.push("EF s differs from Reachability::reach_bwd(s)".into());
+            }
+        }
+        Err(e) => bad.push(clean(&e)),
+    }
+    match run("AG %s%") {
+        Ok(r) => {
+            if r.as_bdd() != graph.trap_forward(&s).as_bdd() {
+                bad.push("AG s differs from trap_forward(s)".into());
+            }
+        }
+        Err(e) => bad.push(clean(&e)),
+    }
+    match run("%s% EU %t%") {
+        Ok(r) => {
+            // constrained backward reachability: inside s | t, towards t
+            let within = graph.restrict(&s.union(&t));
+            if r.as_bdd() != within.reach_backward(&t).as_bdd() {
+                bad.push("s EU t differs from reach_backward(t) constrained to s | t".into());
+            }
+        }
+        Err(e) => bad.push(clean(&e)),
+    }
+    if bad.is_empty() {
+        writeln!(out, "{id} OK {} variables", graph.num_vars()).unwrap();
+    } else {
+        writeln!(out, "{id} ERR {}", clean(&bad.join("; "))).unwrap();
+    }
 }
